@@ -67,7 +67,8 @@ Renamings == {r \in [Range(NameOrder) -> Range(NameOrder)] : \A x, y \in Range(N
 
 (* top-level dimensions that may be permuted: un-bracketed dimensions only (bracketed leaves keep their relative order) *)
 DimHasBr(d) == BrNamesOfDim(d) # <<>> \/ d.k = "nb"
-MovablePerms(t) == {p \in Perms(DOMAIN t) : \A k \in DOMAIN t : DimHasBr(t[k]) => p[k] = k}
+(* dimensions containing brackets keep their relative order *)
+MovablePerms(t) == {p \in Perms(DOMAIN t) : \A k1, k2 \in DOMAIN t : (k1 < k2 /\ DimHasBr(t[p[k1]]) /\ DimHasBr(t[p[k2]])) => p[k1] < p[k2]}
 
 BrOrderSame(t, p) == TRUE
 
